@@ -266,7 +266,13 @@ pub fn run(ctx: &Ctx) -> i32 {
     // derives from a size hint must not reach the bytes
     {
         let nbig: u64 = ctx.tier.pick(600_000, 3_000_000);
-        let kv: Kv = (0..nbig).map(|i| (format!("{:09}", i * 7).into_bytes(), (i * 2654435761) % 1000)).collect();
+        // scattered keys with varied values: plenty of distinct nodes and plenty of re-usable suffixes, so that the node cache is under
+        // pressure and its geometry would show in the bytes
+        let mut ks: Vec<u64> = (0..nbig).map(|i| crate::rng::mix(i ^ ctx.seed) % 4_000_000_000).collect();
+        ks.sort();
+        ks.dedup();
+        let kv: Kv = ks.iter().enumerate().map(|(i, k)| (format!("{:010}", k).into_bytes(), (i as u64 * 2654435761) % 1000)).collect();
+        let nbig = kv.len() as u64;
         let zero: Kv = kv.iter().map(|(k, _)| (k.clone(), 0)).collect();
         let mut refs: Vec<(&str, &Kv, Option<Vec<u8>>)> = vec![("map", &kv, None), ("set", &zero, None)];
         for (what, seq, reference) in refs.iter_mut() {
